@@ -1165,6 +1165,7 @@ def run(ctx, pid):
         cut_order_part(ctx, dist)
     if pid == "C15":
         relative_demux_part(ctx, dist)
+        dup_name_demux_part(ctx, dist)
     if pid in ("C03", "C04", "C09", "C10", "C11", "C15", "C16", "C20"):
         from . import pairprops
 
@@ -1363,6 +1364,44 @@ def minimal_report_part(ctx, results, presults, dist):
     finally:
         import shutil
         shutil.rmtree(d, ignore_errors=True)
+
+
+def dup_name_demux_part(ctx, dist):
+    """C15 with adapters that share a name (records of a barcode FASTA with a repeated name, -g x=... -g x=...): {name} stands for the
+    adapter's name, so the reads of both adapters go to the one file of that name and the adapters named differently keep their own"""
+    import random
+
+    rng = random.Random(ctx.seed * 7919 + 15)   # own stream: the parts that follow keep theirs
+    with S.Scratch() as d:
+        for it in range(ctx.size(4, 30)):
+            order = rng.choice([["alpha", "alpha", "beta", "gamma"], ["alpha", "beta", "alpha", "gamma"], ["beta", "alpha", "alpha"], ["alpha", "beta", "beta", "gamma"]])
+            seqs = []
+            while len(seqs) < len(order):
+                x = U.rand_seq(rng, 8, "ACGT")
+                if all(sum(a != b for a, b in zip(x, y)) >= 4 for y in seqs):
+                    seqs.append(x)
+            cfg = S.Cfg(adapters=tuple(("-g", "%s=^%s" % (n, q)) for n, q in zip(order, seqs)), error_rate=0.0, demux=True, fasta=rng.random() < 0.3)
+            reads, want = [], {}
+            for i in range(rng.choice([6, 12])):
+                k = rng.randrange(len(order) + 1)
+                body = U.rand_seq(rng, rng.randint(10, 25), "ACGT")
+                if k < len(order):
+                    seq, key = seqs[k] + body, "name:" + order[k]
+                else:
+                    seq, key = body, "name:unknown"
+                    if any(seq.startswith(q) for q in seqs):
+                        continue
+                reads.append(("r%d" % i, seq, None if cfg.fasta else "I" * len(seq)))
+                want.setdefault(key, []).append("r%d" % i)
+            res = S.run_impl(cfg, reads, d)
+            dist["demultiplexing with shared adapter names"] = dist.get("demultiplexing with shared adapter names", 0) + 1
+            ctx.count(("dupnames", tuple(order), tuple(seqs), len(reads), it), res["exit"] == 0)
+            got = {k: [n.split()[0] for n, _, _ in v] for k, v in res["files"].items() if str(k).startswith("name:") and v} if res["exit"] == 0 else None
+            if got != {k: v for k, v in want.items() if v}:
+                ctx.violation("demultiplexing with shared adapter names: reads are not in the file of their adapter's name",
+                              {"kind": "dupnames", "cfg": cfg.to_json(), "reads": [list(r) for r in reads], "expected": want, "observed": got if got is not None else "exit %r %s" % (res["exit"], res.get("error")),
+                               "why": "adapters %r: expected %r, files hold %r" % (list(zip(order, seqs)), want, got)})
+                return
 
 
 def relative_demux_part(ctx, dist):
